@@ -170,3 +170,26 @@ Lemma limit_guards_from_source :
                          (b "ls.Storage.Push"%string, [])] /\
   file_push_guards = [(b "s.fallbackStorage.Push"%string, [b "name == ''"%string])].
 Proof. split; reflexivity. Qed.
+
+(* helper *)
+Lemma file_step_lim_over lim fx ig ov s o :
+  over_limit lim ig o = true -> file_step_lim lim fx ig ov s o = (s, LLimit).
+Proof. unfold file_step_lim. now intros ->. Qed.
+
+(* for EVERY history the limited store ends in the state of the unlimited store run on the
+   history without its oversized unnamed pushes, and answers the remaining operations alike:
+   the theorems about file_step (sequential and, since the limit check reads no shared state,
+   the interleaving theorems on the filtered programs) apply to it *)
+Theorem file_limit_is_filter lim fx ig ov h : forall s,
+  fst (runl (file_step_lim lim fx ig ov) s h) =
+  fst (runf (file_step fx ig ov) s (filter (fun o => negb (over_limit lim ig o)) h)) /\
+  filter (fun x => match x with LLimit => false | LOut _ => true end) (snd (runl (file_step_lim lim fx ig ov) s h)) =
+  map LOut (snd (runf (file_step fx ig ov) s (filter (fun o => negb (over_limit lim ig o)) h))).
+Proof.
+  induction h as [|o h IH]; intro s; [split; reflexivity|].
+  rewrite runl_cons. cbn [filter]. destruct (over_limit lim ig o) eqn:E.
+  - rewrite (file_step_lim_over lim fx ig ov s o E). cbn [negb fst snd filter]. apply IH.
+  - rewrite (file_step_lim_below lim fx ig ov s o E). cbn [negb fst snd filter].
+    rewrite runf_cons. cbn [fst snd map]. destruct (IH (fst (file_step fx ig ov s o))) as [A C].
+    split; [exact A | now rewrite C].
+Qed.
